@@ -255,7 +255,7 @@ class Outcome:
 def finish(out, rule, checker_cmd, extra_cov=None, replay_hint=None):
     """apply the verdict rule, write evidence, print VIOLATION lines, return exit code"""
     prop = out.prop
-    known = [k for k in load_known_findings() if k.get("property") == prop and k.get("status") == "known"]
+    known = [k for k in load_known_findings() if (k.get("property") == prop or prop in k.get("also", [])) and k.get("status") == "known"]
     violations = []
     os.makedirs(os.path.join(VERIF, "replays"), exist_ok=True)
     # concrete failing inputs (direct oracle)
